@@ -165,11 +165,11 @@ def defect_norm(snap, Q, A, dt, rt):
 # ------------------------------------------------------------------------------------------------ C03 (b) freshness
 
 
-def freshness_case(rep, NP, NL, maxiter, rt, jac=True):
+def freshness_case(rep, NP, NL, maxiter, rt, jac=True, restol=1e-2, predict='auto'):
     sp.install_shadows()
-    name = f'fresh/NP{NP}/NL{NL}/K{maxiter}/{rt}/jac{int(jac)}'
-    cfg = dict(sweeper='generic_implicit', prob='dahlquist', n=1, M=[2, 1][:NL], NP=NP, qd='LU', restol=1e-2, maxiter=maxiter,
-               predict=('pfasst_burnin' if NL > 1 and NP > 1 else None), jac=jac, residual_type=rt, dt=0.25)
+    name = f'fresh/NP{NP}/NL{NL}/K{maxiter}/{rt}/jac{int(jac)}/tol{restol:g}/{predict}'
+    cfg = dict(sweeper='generic_implicit', prob='dahlquist', n=1, M=[2, 1][:NL], NP=NP, qd='LU', restol=restol, maxiter=maxiter,
+               predict=(('pfasst_burnin' if NL > 1 and NP > 1 else None) if predict == 'auto' else predict), jac=jac, residual_type=rt, dt=0.25)
 
     def fn(c):
         ctl, A, uend, stats, xs = run_symbolic(c, cfg)
